@@ -35,7 +35,7 @@ def classify(case, detail):
 def _distribution(cases):
     d = {"tws": 0, "gws": 0, "len<=3": 0, "len4-6": 0, "len7-15": 0, "len>15": 0, "closed_by_server": 0,
          "with_malformed": 0, "with_other_protocol_msg": 0, "with_timer_event": 0, "ops_started>=1": 0,
-         "ops_started>=2": 0, "with_duplicate_id_close_4409": 0, "with_scheduler_race_go_after_cancel": 0}
+         "ops_started>=2": 0, "with_duplicate_id_close_4409": 0}
     for c in cases:
         proto = c[5:8]
         d[proto] = d.get(proto, 0) + 1
